@@ -415,3 +415,89 @@ func VerifC03Readonly() {
 	}
 	vCover("done")
 }
+
+// VerifC03HWWriters: several writers advance the high watermark concurrently
+// (on a leader: the replication-factor-1 fast path of the message loop and the
+// commit loop; on a follower: replication responses) while a committed reader
+// is running. The values a, b (first writer, in this order) and c (second
+// writer) are arbitrary offsets of the log. Once SetHighWatermark(x) has
+// returned the high watermark is at least x for good; a reader of the high
+// watermark never sees it decrease; at the end it is max(a, b, c) and the
+// reader has been handed exactly the offsets 0..max once, in order, none above
+// the high watermark at the time.
+func VerifC03HWWriters() {
+	dir := vTempDir()
+	n := vParam("msgs", 3)
+	l, err := New(vOpts(dir, 1<<20))
+	vAssert(err == nil, "New succeeds")
+	for i := 0; i < n; i++ {
+		_, err := l.Append([]*Message{{Value: []byte{byte(i)}, Timestamp: int64(1 + i), MagicByte: 2}})
+		vAssert(err == nil, "Append succeeds")
+	}
+	draw := func(name string) int64 {
+		x := vNondetInt64(name)
+		vAssume(x >= 0)
+		vAssume(x < int64(n))
+		return x
+	}
+	a, b, c := draw("a"), draw("b"), draw("c")
+	max := a
+	if b > max {
+		max = b
+	}
+	if c > max {
+		max = c
+	}
+	r, err := l.NewReader(0, false)
+	vAssert(err == nil, "NewReader(committed) succeeds")
+	done := make(chan struct{}, 4)
+	delivered := make(chan int64, 16)
+	vSchedExplore(vParam("preemptions", 1))
+	go func() {
+		l.SetHighWatermark(a)
+		vAssert(l.HighWatermark() >= a, "once SetHighWatermark(x) returned the high watermark is at least x")
+		l.SetHighWatermark(b)
+		vAssert(l.HighWatermark() >= b, "once SetHighWatermark(x) returned the high watermark is at least x")
+		vAssert(l.HighWatermark() >= a, "the high watermark never moves backwards")
+		done <- struct{}{}
+	}()
+	go func() {
+		l.SetHighWatermark(c)
+		vAssert(l.HighWatermark() >= c, "once SetHighWatermark(x) returned the high watermark is at least x")
+		done <- struct{}{}
+	}()
+	go func() { // an observer of the high watermark
+		last := int64(-1)
+		for i := 0; i < 3; i++ {
+			now := l.HighWatermark()
+			vAssert(now >= last, "the high watermark never moves backwards")
+			last = now
+		}
+		done <- struct{}{}
+	}()
+	go func() { // committed reader
+		buf := make([]byte, 28)
+		ctx, cancel := context.WithTimeout(context.Background(), time.Hour)
+		defer cancel()
+		for {
+			_, off, _, _, err := r.ReadMessage(ctx, buf)
+			if err != nil {
+				delivered <- -100
+				return
+			}
+			vAssert(off <= l.HighWatermark(), "no message above the high watermark is delivered")
+			delivered <- off
+		}
+	}()
+	for i := 0; i < 3; i++ {
+		<-done
+	}
+	vSchedExplore(0)
+	vAssert(l.HighWatermark() == max, "after concurrent advances the high watermark is the largest value set")
+	max = vConcretize64(max)
+	for i := int64(0); i <= max; i++ {
+		off := <-delivered
+		vAssert(off == i, "every committed message is delivered once, in order (no lost wake-up)")
+	}
+	vCover("done")
+}
